@@ -166,6 +166,10 @@ impl SExec {
                 let is_collect = matches!(op, SOp::Collect { .. });
                 let func: &'static str = if is_collect { "collect_fees" } else { "refund" };
                 let (ri, t) = (pi(*receiver), *token as usize % NTOK);
+                if *receiver == 200 {
+                    self.pay_out_to_self(ctx, is_collect, t, amount, *abort);
+                    return;
+                }
                 let a = self.amt(amount, t, ri);
                 let tok = Token { address: self.tokens[t].clone(), amount: a };
                 let id = if let SOp::Refund { msg_id, .. } = op { msg_id.resolve() } else { String::new() };
@@ -286,6 +290,40 @@ impl SExec {
             }
             SOp::Resubmit { .. } => {}
         }
+    }
+
+    /// A pay-out whose receiver is the gas service itself (authorised by the collector).  Paying oneself
+    /// moves nothing, and the statement's balance equation has no reading for a "refund" that leaves the
+    /// balance where it was — so a covered amount may be accepted or refused; but a negative amount, or
+    /// more than the service holds, is refused for this receiver as for any other.
+    fn pay_out_to_self(&mut self, ctx: &mut Ctx, is_collect: bool, t: usize, amount: &SAmt, abort: Option<u16>) {
+        let env = self.sim.env.clone();
+        let gas = self.gas.clone();
+        let func: &'static str = if is_collect { "collect_fees" } else { "refund" };
+        let a = match amount {
+            SAmt::Zero => 0,
+            SAmt::Neg => -1,
+            SAmt::Lit(v) => *v as i128,
+            SAmt::Held | SAmt::Balance => self.m.held[t],
+            SAmt::HeldPlus1 | SAmt::BalancePlus1 => self.m.held[t] + 1,
+        };
+        let tok = Token { address: self.tokens[t].clone(), amount: a };
+        let args: SVec<Val> = if is_collect { (gas.clone(), tok).into_val(&env) } else { (SStr::from_str(&env, "0xaa-0"), gas.clone(), tok).into_val(&env) };
+        let col = self.m.collector;
+        let entries = vec![AuthEntry { who: self.p[col].clone(), root: AuthNode::new(&gas, func, args.clone()) }];
+        ctx.count("probe.pay_out_with_the_service_itself_as_receiver");
+        let must_refuse = a < 0 || a > self.m.held[t] || (is_collect && a == 0);
+        ctx.judged(&["C14"], hash_of(&self.m), func, if must_refuse { "self-receiver-uncovered" } else { "self-receiver-either" });
+        let res = self.sim.call(&gas, func, args, &entries, abort);
+        ctx.note(|| format!("{} token{} amount={} receiver=the service itself -> {}", func, t, a, res.out.err_text()));
+        if !after_call(ctx, &res, func, &["C14"]) {
+            return;
+        }
+        ctx.count(&format!("op.{}.self-receiver.{}", func, res.out.class()));
+        if must_refuse {
+            must_fail(ctx, &res, &["C14"], &format!("{}/accepted:{}", func, if a < 0 { "negative-amount" } else if a == 0 { "non-positive-amount" } else { "more-than-the-service-holds" }), "uncovered pay-out with the service itself as receiver");
+        }
+        // accepted or refused, nothing moved: the balance invariants that follow every step see to that
     }
 
     /// the gas service's own address named as spender by an outside caller: nobody can
@@ -442,8 +480,8 @@ impl World for WorldS {
                     spender: rng.range(2, 3) as u8, token: rng.below(3) as u8, amount: inamt(rng), sender: rng.below(NP as u64) as u8, msg_id: StrSpec::gen(rng),
                     auth: if fault { *rng.pick(&[AuthVar::Counterparty, AuthVar::Owner, AuthVar::Stranger, AuthVar::Nobody, AuthVar::RightOtherArgs, AuthVar::RootOnly]) } else if f_auth && rng.chance(1, 6) { AuthVar::Everyone } else { AuthVar::Right }, abort,
                 },
-                2 => SOp::Collect { receiver: *rng.pick(&[4u8, 5, 4, 5, 4, 5, 0, 1, 1, 2]), token: rng.below(3) as u8, amount: outamt(rng), auth: if fault { *rng.pick(&[AuthVar::Counterparty, AuthVar::Owner, AuthVar::Stranger, AuthVar::Nobody, AuthVar::RightOtherArgs]) } else if f_auth && rng.chance(1, 6) { AuthVar::Everyone } else { AuthVar::Right }, abort },
-                3 => SOp::Refund { receiver: *rng.pick(&[2u8, 3, 4, 5, 2, 3, 4, 5, 0, 1]), token: rng.below(3) as u8, amount: outamt(rng), msg_id: StrSpec::gen(rng), auth: if fault { *rng.pick(&[AuthVar::Counterparty, AuthVar::Owner, AuthVar::Stranger, AuthVar::Nobody, AuthVar::RightOtherArgs]) } else if f_auth && rng.chance(1, 6) { AuthVar::Everyone } else { AuthVar::Right }, abort },
+                2 => SOp::Collect { receiver: *rng.pick(&[4u8, 5, 4, 5, 4, 5, 0, 1, 1, 2, 200]), token: rng.below(3) as u8, amount: outamt(rng), auth: if fault { *rng.pick(&[AuthVar::Counterparty, AuthVar::Owner, AuthVar::Stranger, AuthVar::Nobody, AuthVar::RightOtherArgs]) } else if f_auth && rng.chance(1, 6) { AuthVar::Everyone } else { AuthVar::Right }, abort },
+                3 => SOp::Refund { receiver: *rng.pick(&[2u8, 3, 4, 5, 2, 3, 4, 5, 0, 1, 200]), token: rng.below(3) as u8, amount: outamt(rng), msg_id: StrSpec::gen(rng), auth: if fault { *rng.pick(&[AuthVar::Counterparty, AuthVar::Owner, AuthVar::Stranger, AuthVar::Nobody, AuthVar::RightOtherArgs]) } else if f_auth && rng.chance(1, 6) { AuthVar::Everyone } else { AuthVar::Right }, abort },
                 4 => SOp::TransferOwnership { to: rng.below(NP as u64) as u8, auth: if fault || rng.chance(1, 3) { *rng.pick(&[AuthVar::Former, AuthVar::OtherRole, AuthVar::Counterparty, AuthVar::Stranger, AuthVar::Nobody, AuthVar::RightOtherArgs]) } else { AuthVar::Right }, abort },
                 _ => SOp::Resubmit { k: rng.below(64) as u16 },
             };
